@@ -25,23 +25,4 @@ def run(tier, seed, only):
                           funcs=["split2", "edist_serial", "cmp_floats", "alloc_kmeans_result"], cost=ns * 100,
                           bound="%d indistinguishable samples, %d anchors, seed %d; common distance vector symbolic; refinement loop proved to stop within 3 rounds" % (ns, na, seed),
                           desc="k-means split of indistinguishable sequences yields two non-empty halves"))
-    import json
-    ev_path = os.path.join(core.EVIDENCE, "C08.json") if not only else os.path.join(core.BUILD, "C08.partial-evidence.json")
-    ev1 = json.load(open(ev_path))
-    os.rename(ev_path, ev_path + ".o1")
-    build_o1 = os.path.join(core.BUILD, "C08")
-    os.rename(build_o1, build_o1 + "_o1") if os.path.isdir(build_o1) and not os.path.isdir(build_o1 + "_o1") else None
-    rc2 = core.run_property("C08", tier, insts, META, seed, only)
-    ev2 = json.load(open(ev_path))
-    ev2["coverage"]["split_exploration"] = ev1["coverage"]
-    ev2["coverage"]["evaluations"] += ev1["coverage"]["evaluations"]
-    ev2["coverage"]["distinct_nontrivial"] += ev1["coverage"]["distinct_nontrivial"]
-    ev2["coverage"]["obligations"] += ev1["coverage"]["obligations"]
-    ev2["coverage"]["discharged"] += ev1["coverage"]["discharged"]
-    ev2["violations"] += ev1["violations"]
-    ev2["wall_s"] += ev1["wall_s"]
-    json.dump(ev2, open(ev_path, "w"), indent=1)
-    os.remove(ev_path + ".o1")
-    import shutil
-    shutil.rmtree(build_o1 + "_o1", ignore_errors=True)
-    return 1 if (rc == 1 or rc2 == 1) else (rc or rc2)
+    return C07.combine("C08", tier, seed, only, rc, insts, META)
